@@ -225,7 +225,14 @@ where
     type Stream = Self;
 
     fn into_parts(self) -> (Vector<VectorDiffContainerStreamElement<S>>, Self::Stream) {
-        (self.buffered_vector.clone(), self)
+        // Hand out the view without the skipped items (nothing as long as no
+        // count is known), not the internal copy of the source.
+        let values = match self.count {
+            Some(count) => self.buffered_vector.clone().skeep(count),
+            None => Vector::new(),
+        };
+
+        (values, self)
     }
 }
 
